@@ -4,6 +4,7 @@ import (
 	"github.com/orbs-network/lean-helix-go/services/interfaces"
 	"github.com/orbs-network/lean-helix-go/spec/types/go/primitives"
 	"github.com/orbs-network/lean-helix-go/spec/types/go/protocol"
+	"github.com/orbs-network/lean-helix-go/state"
 	env "github.com/orbs-network/lean-helix-go/zzverifenv"
 	stub "github.com/orbs-network/lean-helix-go/zzverifstub"
 )
@@ -120,10 +121,16 @@ func C11_NewView() {
 		return
 	}
 	env.Reach("C11.NV.emitted")
-	for _, timedOut := range []bool{false, true} {
+	for variant := 0; variant < 3; variant++ {
+		timedOut := variant == 1
 		r := wd.peer(2)
 		if timedOut {
 			r.timeout()
+		}
+		if variant == 2 {
+			// R is still in view 0, but its main loop has already consumed R's own election trigger for (1,0)
+			// (contexts older than (1,1) are cancelled); the worker handles the queued NEW_VIEW first
+			r.m.state.Contexts.CancelOlderThan(state.NewHeightView(1, 1))
 		}
 		out0 := len(r.comm.Out)
 		pn := env.Catch(func() { r.deliver(nv.ToConsensusRawMessage()) })
